@@ -53,12 +53,21 @@ func (s *bungeeServer) PlayerCount() int {
 	}
 	return s.s.Players().Len()
 }
+
+// BroadcastPluginMessage sends the plugin message once to the backend server,
+// through the connection of the first player that is connected to it.
 func (s *bungeeServer) BroadcastPluginMessage(identifier message.ChannelIdentifier, data []byte) {
 	if s == nil {
 		return
 	}
-	sinks := PlayersToSlice[message.ChannelMessageSink](s.s.Players())
-	BroadcastPluginMessage(sinks, identifier, data)
+	s.s.Players().Range(func(p Player) bool {
+		conn := p.CurrentServer()
+		if conn == nil || !RegisteredServerEqual(conn.Server(), s.s) {
+			return true
+		}
+		// try the next player only if this connection is already gone
+		return errors.Is(conn.SendPluginMessage(identifier, data), netmc.ErrClosedConn)
+	})
 }
 func (s *bungeeServer) Connect(player bungeecord.Player) {
 	if s == nil {
@@ -144,7 +153,17 @@ func (b *bungeeMessageResponderAdapter) Servers() []bungeecord.Server {
 	return bungeeServers
 }
 func (b *bungeeMessageResponderAdapter) ConnectedServer() bungeecord.ServerConnection {
-	server := b.player.connectedServer()
+	return b.serverConnectionOf(b.player)
+}
+func (b *bungeeMessageResponderAdapter) PlayerServer(player bungeecord.Player) bungeecord.ServerConnection {
+	p, ok := player.(*connectedPlayer)
+	if !ok || p == nil {
+		return nil
+	}
+	return b.serverConnectionOf(p)
+}
+func (b *bungeeMessageResponderAdapter) serverConnectionOf(player *connectedPlayer) bungeecord.ServerConnection {
+	server := player.connectedServer()
 	if server == nil {
 		return nil
 	}
